@@ -5,6 +5,7 @@ import (
 	"database/sql/driver"
 	"encoding/base64"
 	"encoding/json"
+	"errors"
 	"fmt"
 	"reflect"
 	"strconv"
@@ -46,6 +47,12 @@ func (lt *LogType) UnmarshalJSON(data []byte) error {
 		return err
 	}
 
+	switch s {
+	case "SET_METADATA", "NEW_TRANSACTION", "REVERTED_TRANSACTION", "DELETE_METADATA", "INSERTED_SCHEMA":
+	default:
+		// logs come in from outside (import): an unknown type is an error of the input, not a panic
+		return fmt.Errorf("invalid log type '%s'", s)
+	}
 	*lt = LogTypeFromString(s)
 
 	return nil
@@ -141,6 +148,43 @@ func (l *Log) UnmarshalJSON(data []byte) error {
 	}
 	*l = Log(rawLog.auxLog)
 	return err
+}
+
+// ValidateImported checks what the import dereferences when it replays a log received from outside:
+// the ids, the revert date and the amounts must be there.
+func (l Log) ValidateImported() error {
+	if l.ID == nil {
+		return errors.New("log without id")
+	}
+	checkTransaction := func(what string, tx Transaction) error {
+		if tx.ID == nil {
+			return fmt.Errorf("%s without id", what)
+		}
+		if len(tx.Postings) == 0 {
+			return fmt.Errorf("%s without postings", what)
+		}
+		for i, posting := range tx.Postings {
+			if posting.Amount == nil {
+				return fmt.Errorf("%s: posting %d without amount", what, i)
+			}
+		}
+		return nil
+	}
+	switch payload := l.Data.(type) {
+	case CreatedTransaction:
+		return checkTransaction("transaction", payload.Transaction)
+	case RevertedTransaction:
+		if payload.RevertedTransaction.RevertedAt == nil {
+			return errors.New("reverted transaction without revert date")
+		}
+		if err := checkTransaction("reverted transaction", payload.RevertedTransaction); err != nil {
+			return err
+		}
+		return checkTransaction("revert transaction", payload.RevertTransaction)
+	case nil:
+		return errors.New("log without data")
+	}
+	return nil
 }
 
 func (l *Log) ComputeHash(previous *Log) {
@@ -296,12 +340,13 @@ func (s *SavedMetadata) UnmarshalJSON(data []byte) error {
 	var id interface{}
 	switch strings.ToUpper(x.TargetType) {
 	case strings.ToUpper(MetaTargetTypeAccount):
-		id = ""
-		err = json.Unmarshal(x.TargetID, &id)
+		var address string
+		err = json.Unmarshal(x.TargetID, &address)
+		id = address
 	case strings.ToUpper(MetaTargetTypeTransaction):
 		id, err = strconv.ParseUint(string(x.TargetID), 10, 64)
 	default:
-		panic("unknown type")
+		return fmt.Errorf("unknown type '%s'", x.TargetType)
 	}
 	if err != nil {
 		return err
@@ -348,8 +393,9 @@ func (s *DeletedMetadata) UnmarshalJSON(data []byte) error {
 	var id interface{}
 	switch strings.ToUpper(x.TargetType) {
 	case strings.ToUpper(MetaTargetTypeAccount):
-		id = ""
-		err = json.Unmarshal(x.TargetID, &id)
+		var address string
+		err = json.Unmarshal(x.TargetID, &address)
+		id = address
 	case strings.ToUpper(MetaTargetTypeTransaction):
 		id, err = strconv.ParseUint(string(x.TargetID), 10, 64)
 	default:
@@ -449,6 +495,10 @@ func HydrateLog(_type LogType, data []byte) (LogPayload, error) {
 	err := json.Unmarshal(data, &payload)
 	if err != nil {
 		return nil, err
+	}
+	if payload == nil {
+		// "data": null
+		return nil, errors.New("missing log data")
 	}
 
 	return reflect.ValueOf(payload).Elem().Interface().(LogPayload), nil
